@@ -32,22 +32,31 @@ def run_seed(master, index):
 _BOOTED = {}
 
 
-def _ensure_world(boot_id):
+def _ensure_world(boot_id, real_openql=False):
     from sim.world import WORLD
     if not WORLD.booted:
         faulthandler.enable()
-        WORLD.boot(boot_id)
+        if real_openql:
+            work = os.path.join(VERIF, ".work", "oql", str(os.getpid()))
+            WORLD.boot(boot_id, real_openql=True, work_dir=work)
+        else:
+            WORLD.boot(boot_id)
         _BOOTED["id"] = boot_id
     elif _BOOTED.get("id") != boot_id:
         raise RuntimeError(f"worker booted as {_BOOTED.get('id')}, asked for {boot_id}")
     return WORLD
 
 
-def worker_chunk(args):
+def worker_chunk_real(args):
+    """Same as worker_chunk in a world where the exporter talks to the real OpenQL library."""
+    return worker_chunk(args, real_openql=True)
+
+
+def worker_chunk(args, real_openql=False):
     """Run a chunk of run indices. Returns aggregated stats and (bounded) violations."""
     prop, profile, boot_id, master, indices, want_samples = args
     sys.path.insert(0, VERIF) if VERIF not in sys.path else None
-    _ensure_world(boot_id)
+    _ensure_world(boot_id, real_openql)
     from sim import generator, engine, canon
     faulthandler.dump_traceback_later(600, exit=True)
     agg = {"runs": 0, "steps": 0, "points": 0, "timed_points": 0, "plot_points": 0, "fired": {}, "armed_unfired": 0,
@@ -221,7 +230,7 @@ def search(prop, profile, tier, master, jobs, budget=None, boots=None, log=print
     per = max(1, jobs // (len(boots) * len(hashseeds)))
     for hs in hashseeds:
         for b in boots:
-            groups.append({"hs": hs, "boot": b, "pool": _pool(per, hs), "futs": set(), "n": per})
+            groups.append({"hs": hs, "boot": b, "pool": _pool(per, hs), "futs": set(), "n": per, "gid": len(groups), "next": 0})
     try:
         gi = 0
         pending = {}
@@ -233,8 +242,10 @@ def search(prop, profile, tier, master, jobs, budget=None, boots=None, log=print
             remaining = deadline - time.time()
             if rate is not None and remaining > 0:
                 n = max(2, min(n, int(rate * remaining * 0.8) or 2))
-            idxs = list(range(next_index, next_index + n))
-            next_index += n
+            # run index -> world is a fixed function: index mod #worlds selects (boot, hash seed)
+            k0 = g["next"]
+            idxs = [g["gid"] + len(groups) * k for k in range(k0, k0 + n)]
+            g["next"] = k0 + n
             want = len(total["samples"]) + len(pending) < 3
             f = g["pool"].submit(worker_chunk, (prop, profile, g["boot"], master, idxs, want))
             pending[f] = g
@@ -289,3 +300,30 @@ def _merge(total, agg, g):
     total["samples"].extend(agg["samples"])
     w = f"{g['boot']}/hashseed={g['hs']}"
     total["per_world"][w] = total["per_world"].get(w, 0) + agg["runs"]
+
+
+def search_real_openql(prop, profile, master, jobs, n_runs, total):
+    """Sampled real-OpenQL worlds (thorough tier of C15): the cQASM written by the real compiler is parsed back
+    and must equal the translation of the listing; this also calibrates the recording fake."""
+    import shutil
+    t0 = time.time()
+    pool = _pool(max(1, min(jobs, 8)), 0)
+    try:
+        futs = []
+        per = 20
+        base = 10 ** 7     # index range disjoint from the bulk search
+        for k in range(0, n_runs, per):
+            idxs = list(range(base + k, base + min(k + per, n_runs)))
+            futs.append(pool.submit(worker_chunk_real, (prop, profile, "shipped", master, idxs, False)))
+        g = {"boot": "shipped+real-openql", "hs": 0}
+        for f in futs:
+            try:
+                agg = f.result(timeout=1800)
+            except Exception as e:
+                total["harness_errors"].append({"exc": type(e).__name__, "msg": str(e)[:300], "world": "real-openql"})
+                continue
+            _merge(total, agg, g)
+    finally:
+        pool.shutdown(wait=False, cancel_futures=True)
+        shutil.rmtree(os.path.join(VERIF, ".work", "oql"), ignore_errors=True)
+    total["real_openql_wall"] = time.time() - t0
